@@ -165,11 +165,13 @@ def gen_session(rng, methods, long=False):
     ev.append({"k": "notif", "method": "initialized", "p": "ok", "target": 0})
     # --- while the initialization task runs (queued)
     ids = []
-    for _ in range(rng.choice([0, 0, 1, 2, 4])):
+    for _ in range(rng.choice([0, 1, 2, 3, 5])):
         if rng.random() < 0.6:
             q = rand_request()
             ids.append(q["id"])
             ev.append(q)
+            if rng.random() < 0.5:   # cancel a request that is still queued behind the initialization task
+                ev.append({"k": "notif", "method": "$/cancelRequest", "p": "ok", "target": q["id"]})
         else:
             ev.append(rand_notif(ids))
     if shape < 0.13 and ids:  # shutdown while queued
@@ -215,7 +217,8 @@ def gen_session(rng, methods, long=False):
 
 # ------------------------------------------------------------------ the client
 class Client:
-    def __init__(self, cwd):
+    def __init__(self, cwd, reply_delay=0.0):
+        self.reply_delay = reply_delay
         env = dict(os.environ, RUST_BACKTRACE="0")
         self.p = subprocess.Popen([BIN], stdin=subprocess.PIPE, stdout=subprocess.PIPE, stderr=subprocess.DEVNULL, cwd=cwd, env=env)
         self.lock = threading.Lock()
@@ -249,7 +252,11 @@ class Client:
                     self.last_rx = time.time()
                     if "method" in m and "id" in m:
                         self.server_requests += 1
-                        self._send_raw({"jsonrpc": "2.0", "id": m["id"], "result": None})
+                        reply = {"jsonrpc": "2.0", "id": m["id"], "result": [None] if m.get("method") == "workspace/configuration" else None}
+                        if self.reply_delay > 0:
+                            threading.Timer(self.reply_delay, self._send_raw, args=(reply,)).start()
+                        else:
+                            self._send_raw(reply)
                     elif "method" in m:
                         self.notifications += 1
                     else:
@@ -312,7 +319,7 @@ class Client:
         return self.p.returncode
 
 
-def concrete(ev, uri, ws_uri, rng):
+def concrete(ev, uri, ws_uri, rng, slow_client=False):
     """abstract event -> JSON-RPC message (dict) or None"""
     k = ev["k"]
     if k == "req":
@@ -320,7 +327,8 @@ def concrete(ev, uri, ws_uri, rng):
         meth, p = ev["method"], ev["p"]
         if meth == "initialize":
             if p == "ok":
-                m["params"] = {"processId": None, "rootUri": ws_uri, "capabilities": {},
+                caps = {"workspace": {"configuration": True}} if slow_client else {}
+                m["params"] = {"processId": None, "rootUri": ws_uri, "capabilities": caps,
                                "workspaceFolders": [{"uri": ws_uri, "name": "ws"}]}
             elif p == "badcaps":
                 m["params"] = {"processId": None, "rootUri": ws_uri, "capabilities": "bad"}
@@ -375,7 +383,8 @@ def run_session(sess, methods, seed, timeout):
         f.write(LUA_TEXT)
     ws_uri = "file://" + ws
     uri = ws_uri + "/a.lua"
-    c = Client(ws)
+    slow_client = seed % 3 == 0     # every third session: the client answers server requests late (long init window)
+    c = Client(ws, reply_delay=0.4 if slow_client else 0.0)
     sent_ids = []
     notes = []
     try:
@@ -393,7 +402,7 @@ def run_session(sess, methods, seed, timeout):
                     "textDocument": {"uri": uri, "languageId": "lua", "version": 1, "text": LUA_TEXT}}})
                 continue
             ev["_methods"] = methods
-            m = concrete(ev, uri, ws_uri, rng)
+            m = concrete(ev, uri, ws_uri, rng, slow_client)
             del ev["_methods"]
             if k == "req":
                 sent_ids.append(ev["id"])
@@ -413,7 +422,7 @@ def run_session(sess, methods, seed, timeout):
         rc = c.close()
         shutil.rmtree(tmp, ignore_errors=True)
     return {"responses": responses, "probe": probe_kind, "alive_at_end": alive, "rc": rc, "notes": notes,
-            "server_requests": c.server_requests}
+            "server_requests": c.server_requests, "slow_client": slow_client}
 
 
 # ------------------------------------------------------------------ oracle (independent of the Lean model)
@@ -561,6 +570,20 @@ def main():
             for p in ("ok", "wrong", "absent", "null"):
                 full.append({"k": "req", "id": j, "method": m, "p": p}); j += 1
         sessions.insert(0, (full, 5))
+        # requests and cancels that arrive while the initialization task runs (queued); seeds 3 and 6: slow client
+        for sd in (3, 6, 7):
+            w = [{"k": "req", "id": 1, "method": "initialize", "p": "ok"}, {"k": "await", "id": 1},
+                 {"k": "notif", "method": "initialized", "p": "ok", "target": 0}]
+            j = 10
+            for m_, p_ in (("textDocument/hover", "ok"), ("textDocument/completion", "wrong"), ("foo/bar", "ok"),
+                           ("textDocument/semanticTokens/full", "ok"), ("textDocument/documentSymbol", "null")):
+                w.append({"k": "req", "id": j, "method": m_, "p": p_})
+                w.append({"k": "notif", "method": "$/cancelRequest", "p": "ok", "target": j})
+                j += 1
+            w.append({"k": "notif", "method": "$/cancelRequest", "p": "ok", "target": 10})
+            w += [{"k": "req", "id": 2, "method": "textDocument/hover", "p": "ok"}, {"k": "await", "id": 2},
+                  {"k": "req", "id": 30, "method": "textDocument/hover", "p": "ok"}]
+            sessions.insert(1, (w, sd))
 
     timeout = 40 if thorough else 25
     t0 = time.time()
@@ -583,6 +606,19 @@ def main():
         count("requests_sent", nreq)
         count("server_to_client_requests_answered", obs["server_requests"])
         count("end_phase_" + end_phase)
+        if obs.get("slow_client"):
+            count("sessions_slow_client")
+        # how much was really queued behind the initialization task (sent before the probe's await)
+        seen_init = False
+        for e in sess:
+            if e["k"] == "await" and seen_init:
+                break
+            if seen_init and e["k"] == "req":
+                count("requests_sent_in_init_window")
+            if seen_init and e["k"] == "notif" and e["method"] == "$/cancelRequest":
+                count("cancels_sent_in_init_window")
+            if e["k"] == "notif" and e["method"] == "initialized":
+                seen_init = True
         for e in sess:
             if e["k"] == "req":
                 sig = (e["method"], e["p"])
